@@ -277,6 +277,73 @@ impl Scenario for C02 {
         }
         let total = j.counter;
         cx.probe_n("damaged_variants_decoded", total);
+        cx.verdict()?;
+        // The property's second sentence, directly: lines of the right shape whose declared length
+        // disagrees with their data (by 1, by 128, by 256, ...) or whose checksum is any of the 255
+        // wrong values are never accepted -- whichever way the checksum was computed.
+        let data: Vec<u8> = f.data().to_vec();
+        let addr = f.address().0;
+        let ty = f.message_type().0;
+        let encode = |declared: u8, body: &[u8], over_declared: bool, checksum_delta: u8| -> Vec<u8> {
+            let len_for_sum = if over_declared { declared } else { body.len() as u8 };
+            let mut sum: u8 = len_for_sum.wrapping_add((addr >> 8) as u8).wrapping_add(addr as u8).wrapping_add(ty);
+            for b in body {
+                sum = sum.wrapping_add(*b);
+            }
+            let ck = 0u8.wrapping_sub(sum).wrapping_add(checksum_delta);
+            let mut out = format!(":{:02X}{:04X}{:02X}", declared, addr, ty).into_bytes();
+            for b in body {
+                out.extend(format!("{:02X}", b).into_bytes());
+            }
+            out.extend(format!("{:02X}", ck).into_bytes());
+            if with_newline {
+                out.extend_from_slice(b"\r\n");
+            }
+            out
+        };
+        let l = data.len();
+        let mut bodies: Vec<Vec<u8>> = vec![data.clone()];
+        for extra in [1usize, 128, 256, 512] {
+            let mut b = data.clone();
+            b.extend(cx.bytes(extra));
+            bodies.push(b);
+        }
+        if l >= 1 {
+            bodies.push(data[..l - 1].to_vec());
+        }
+        if l >= 128 {
+            bodies.push(data[..l - 128].to_vec());
+        }
+        for body in &bodies {
+            for declared in [l as u8, (l as u8).wrapping_add(1), (l as u8).wrapping_sub(1), (l as u8) ^ 0x80, 0, 255, body.len() as u8, cx.draw(256) as u8] {
+                if usize::from(declared) == body.len() {
+                    continue; // consistent (or not representable): not this check's subject
+                }
+                for over_declared in [true, false] {
+                    let line = encode(declared, body, over_declared, 0);
+                    cx.probe("length_mismatch_lines");
+                    let accepted = Frame::from_bytes(&line).is_ok() || {
+                        let mut s = SimStream::new(cx, line.clone());
+                        Frame::read(&mut s).is_ok()
+                    };
+                    if accepted {
+                        cx.fail(
+                            "C02/length-mismatch-accepted",
+                            format!("a line declaring {declared} data bytes but carrying {} was accepted (checksum computed over the {} length): {:?}", body.len(), if over_declared { "declared" } else { "actual" }, String::from_utf8_lossy(&line[..line.len().min(60)])),
+                        );
+                        return cx.verdict();
+                    }
+                }
+            }
+        }
+        for delta in 1..=255u8 {
+            let line = encode(l as u8, &data, true, delta);
+            cx.probe("bad_checksum_lines");
+            if Frame::from_bytes(&line).is_ok() {
+                cx.fail("C02/bad-checksum-accepted", format!("checksum off by {delta} accepted: {:?}", String::from_utf8_lossy(&line[..line.len().min(60)])));
+                return cx.verdict();
+            }
+        }
         cx.verdict()
     }
 }
